@@ -55,6 +55,47 @@ func init() {
 			return err
 		}
 		defer out.close()
+		// a host encodes many programs before it decodes any (a cache, a batch): the bytes handed out for one program
+		// are decoded only after three further programs have been encoded
+		type held struct {
+			data     []byte
+			direct   string
+			tok, pos string
+			src      string
+			mm       *ugo.ModuleMap
+			globals  ugo.Map
+		}
+		var queue []held
+		decodeHeld := func(h held) {
+			r := N{"tok": h.tok, "pos": h.pos + "+held", "src": h.src, "ok": true, "direct": h.direct}
+			func() {
+				defer func() {
+					if p := recover(); p != nil {
+						r["ok"], r["what"] = false, fmt.Sprint("panic: ", p)
+					}
+				}()
+				dec, err := encoder.DecodeBytecodeFrom(bytes.NewReader(h.data), h.mm)
+				if err != nil {
+					r["ok"], r["what"] = false, fmt.Sprintf("bytes of MarshalBinary decoded after three other programs were encoded: decode error %v", err)
+					return
+				}
+				got := ""
+				if ret, err := ugo.NewVM(dec).Run(h.globals); err != nil {
+					got = "error: " + err.Error()
+				} else {
+					got = deepRepr(ret)
+				}
+				if got != h.direct {
+					r["ok"], r["what"] = false, fmt.Sprintf("bytes of MarshalBinary decoded after three other programs were encoded: %s, direct run %s", got, h.direct)
+				}
+			}()
+			out.put(r)
+		}
+		defer func() {
+			for _, h := range queue {
+				decodeHeld(h)
+			}
+		}()
 		return readCases(args[0], func(raw []byte) error {
 			var c struct{ Tok, Pos string }
 			if err := json.Unmarshal(raw, &c); err != nil {
@@ -136,6 +177,15 @@ func init() {
 						return deepRepr(ret)
 					}
 					direct := run(bc)
+					if !noopt {
+						if data, err := (*encoder.Bytecode)(bc).MarshalBinary(); err == nil {
+							queue = append(queue, held{data, direct, c.Tok, c.Pos, src, mm, globals})
+							if len(queue) > 3 {
+								decodeHeld(queue[0])
+								queue = queue[1:]
+							}
+						}
+					}
 					cur := bc
 					for round := 1; round <= 2; round++ {
 						var buf bytes.Buffer
